@@ -1,8 +1,12 @@
 #!/bin/sh
-# Offline setup: regenerate Gen/ from /repo, build the Lean library + all drivers, prebuild the
-# sanitized archives of the code under test. Every check rebuilds what it needs anyway.
-set -e
+# Offline setup: regenerate Gen/ from /repo, build the Lean modules and drivers of every claimed
+# property, prebuild the sanitized archives of the code under test.  A failure of one module does
+# not stop the others: every check rebuilds (and reports on) exactly what it needs anyway.
 cd "$(dirname "$0")"
-python3 tools/gen_consts.py
-(cd lean && lake build)
-python3 vlib/build.py
+python3 tools/gen_consts.py || echo "setup: T0 generation reported a problem (checks will report it)"
+for id in $(python3 -c "import json;print(' '.join(c['property_id'] for c in json.load(open('MANIFEST.json'))['checks']))"); do
+  lid=$(echo $id | tr A-Z a-z)
+  (cd lean && lake build VncModel.Props.$id drv_$lid) >/dev/null 2>&1 || echo "setup: lean build for $id failed (its check will report it)"
+done
+python3 vlib/build.py >/dev/null || echo "setup: C build failed (checks will report it)"
+exit 0
